@@ -48,8 +48,15 @@ def find_def(module: str, qual: str):
     node = module_ast(module)
     for part in qual.split("."):
         found = None
+        want_setter = part.startswith("$set:")
+        pname = part[5:] if want_setter else part
         for ch in _defs_in(node):
-            if ch.name == part:
+            if ch.name == pname:
+                decos = [ast.unparse(d) for d in getattr(ch, "decorator_list", [])]
+                is_setter = any(d.endswith(".setter") for d in decos)
+                is_deleter = any(d.endswith(".deleter") for d in decos)
+                if is_deleter or is_setter != want_setter:
+                    continue
                 found = ch
         if found is None:
             raise LookupError(f"{module}:{qual}: '{part}' not found")
@@ -144,7 +151,13 @@ def class_info(module: str, cls: str):
                 if isinstance(t, ast.Name):
                     defaults[t.id] = s.value
         elif isinstance(s, ast.FunctionDef):
-            methods[s.name] = s
+            dn = [ast.unparse(d) for d in s.decorator_list]
+            if any(d.endswith(".setter") for d in dn):
+                methods["$set:" + s.name] = s
+            elif any(d.endswith(".deleter") for d in dn):
+                methods["$del:" + s.name] = s
+            else:
+                methods[s.name] = s
     # self.x: T = ... inside __init__
     init = methods.get("__init__")
     if init is not None:
